@@ -7,10 +7,12 @@ from vf.driver import Cond
 def _conds(tier):
     conds = []
 
-    def c(strategy, runmode, kinds, parents, vmax=3, priosym=0, fixfails=None, timeout=500):
+    def c(strategy, runmode, kinds, parents, vmax=3, priosym=0, fixfails=None, timeout=500, loglevel=-2):
         env = {"VF_KINDS": kinds, "VF_PARENTS": parents, "VF_STRATEGY": strategy, "VF_RUNMODE": runmode,
-               "VF_VMAX": vmax, "VF_PRIOSYM": priosym}
+               "VF_VMAX": vmax, "VF_PRIOSYM": priosym, "VF_LOGLEVEL": loglevel}
         name = f"strategy={strategy}/{runmode}/prog[{kinds}|{parents}]/vmax={vmax}"
+        if loglevel != -2:
+            name += f"/log_level={loglevel}"
         if fixfails is not None:
             env["VF_FIXFAILS"] = fixfails
             name += f"/faults={fixfails}"
@@ -23,6 +25,9 @@ def _conds(tier):
             c(st, "start", "00", "-1,-1")
             c(st, "bounded", "01", "-1,0", vmax=2)
         c(3, "steps", "00", "-1,-1")
+        c(1, "start", "01", "-1,0", loglevel=0)       # set_error_strategy(strategy, log_level)
+        c(2, "start", "00", "-1,-1", loglevel=10)
+        c(3, "start", "01", "-1,0", loglevel=50)
         c(3, "start", "001", "-1,-1,0", fixfails="010")
         c(3, "start", "001", "-1,-1,0", fixfails="101")
         c(1, "start", "001", "-1,-1,0", fixfails="110")
@@ -31,6 +36,8 @@ def _conds(tier):
             for rm in ("start", "steps", "bounded"):
                 for kinds, parents in (("01", "-1,0"), ("00", "-1,-1"), ("02", "-1,0"), ("10", "-1,-1")):
                     c(st, rm, kinds, parents, priosym=1, timeout=2400)
+                    for lv in (0, 10, 50):
+                        c(st, rm, kinds, parents, timeout=2400, loglevel=lv)
                 for kinds, parents in (("001", "-1,-1,0"), ("011", "-1,0,1"), ("000", "-1,-1,-1"), ("012", "-1,0,0")):
                     for mask in itertools.product("01", repeat=3):
                         if rm == "bounded" and st == 2:
